@@ -39,9 +39,10 @@ BASE = {
     "h2": [[0.1, 1 / 3], [0.7, 0.2], [1000.1, 5], [1000.3, 5.5], [3.3, 2.2]],
     "j2": [[1e8, 3.0], [1e8 + 1, 3.5], [1e8 + 2, 2.5], [1e8 + 7, 3.0], [1e8 + 8, 4.0], [1e8 + 9.5, 3.5]],
     "k1": [[2.0**20], [2.0**20 + 0.25], [2.0**20 + 0.5], [2.0**20 + 3], [2.0**20 + 3.5]],
+    "m2": [[0, 0], [0.125, 0.5], [0.5, 0.125], [0.375, 0.375], [0.75, 0.5], [0.625, 0.75], [0.25, 0.125]],
     "i3": [[0, 0, 1], [1, 0, 1], [0, 2, 1], [8, 8, 1], [9, 8, 1], [8, 10, 1.5], [30, 0, 1]],
 }
-QUICK_SETS = ["a1", "b1", "d1", "e2", "f2", "h2", "j2", "k1"]
+QUICK_SETS = ["a1", "b1", "d1", "e2", "f2", "h2", "j2", "k1", "m2"]
 CAPS = {"quick": [1, 2, 3, 5], "thorough": [1, 2, 3, 4, 5, 8]}
 THRS = [None, 0.0, 1e-3, 0.1, 1.0, 1e9]
 
